@@ -196,8 +196,18 @@ pub fn check_value(v: &sonic_rs::Value, m: &J, what: &str) -> Result<(), Violati
                 return Err(mismatch(what, "object.len", obj.len().to_string(), mm.len().to_string()));
             }
             let mut seen = 0;
-            for (k, x) in obj.iter() {
-                let Some(mx) = m.get_key(k) else {
+            // member names may repeat in a parsed, never-mutated object: iteration is then in document order
+            // and is compared position by position; a lookup by key means the first member of that name
+            let dup = mm.iter().enumerate().any(|(i, (k, _))| mm.iter().position(|(kk, _)| kk == k) != Some(i));
+            for (i, (k, x)) in obj.iter().enumerate() {
+                let mx = if dup {
+                    if mm[i].0 != k {
+                        return Err(mismatch(what, "object.iter", format!("member {} is {:?}", i, k), format!("{:?}", mm[i].0)));
+                    }
+                    &mm[i].1
+                } else if let Some(mx) = m.get_key(k) {
+                    mx
+                } else {
                     return Err(mismatch(what, "object.iter", format!("unexpected key {:?}", k), "absent".into()));
                 };
                 check_value(x, mx, &format!("{}/{:?}", what, k))?;
@@ -206,7 +216,8 @@ pub fn check_value(v: &sonic_rs::Value, m: &J, what: &str) -> Result<(), Violati
             if seen != mm.len() {
                 return Err(mismatch(what, "object.iter count", seen.to_string(), mm.len().to_string()));
             }
-            for (k, mx) in mm {
+            for (k, _) in mm {
+                let mx = m.get_key(k).expect("first member of that name");
                 match v.get(k.as_str()) {
                     Some(x) => {
                         check_scalars(x, mx, &format!("{}/{:?}", what, k))?;
